@@ -456,7 +456,12 @@ func RunConc(c *ConcCase) (*ConcHistory, error) {
 				if c.ReadOwn && err == nil && succeeded && hdr != nil && op.Kind != "delete" {
 					r.DidRead = true
 					if c.API == "etcd" {
-						if lr, lerr := etcdSrv.Range(ctx, &etcdserverpb.RangeRequest{Key: []byte(key), RangeEnd: append([]byte(key), 0), Revision: int64(hdr.Revision)}); lerr != nil {
+						var lr *etcdserverpb.RangeResponse
+						lerr := fmt.Errorf("skipped")
+						if len(c.Faults) == 0 {
+							lr, lerr = etcdSrv.Range(ctx, &etcdserverpb.RangeRequest{Key: []byte(key), RangeEnd: append([]byte(key), 0), Revision: int64(hdr.Revision)})
+						}
+						if lerr != nil {
 							r.ListErr = lerr.Error()
 						} else {
 							if lr.Header != nil {
@@ -481,7 +486,13 @@ func RunConc(c *ConcCase) (*ConcHistory, error) {
 							}
 						}
 					} else {
-						lr, lerr := env.B.List(ctx, &proto.RangeRequest{Key: []byte(key), End: append([]byte(key), 0), Revision: hdr.Revision})
+						// (no range read when storage faults are scheduled: a failing iterator sends the range scan into a
+						// back-off of seconds)
+						var lr *proto.RangeResponse
+						lerr := fmt.Errorf("skipped")
+						if len(c.Faults) == 0 {
+							lr, lerr = env.B.List(ctx, &proto.RangeRequest{Key: []byte(key), End: append([]byte(key), 0), Revision: hdr.Revision})
+						}
 						if lerr != nil {
 							r.ListErr = lerr.Error()
 						} else {
